@@ -68,11 +68,24 @@ func RunHistory(t *testing.T, seed int64, gen *Gen, fixed []Op, nops int, drain 
 		w := NewWorld(t, seed)
 		defer w.Close()
 		mon := NewMonitors()
+		stuck := false
 		do := func(op Op) {
+			if stuck {
+				return // a transaction was left open: the next BEGIN would wait for ever
+			}
 			res := w.Exec(op)
 			h.Ops = append(h.Ops, op)
 			h.Results = append(h.Results, res)
 			mon.Observe(len(h.Ops)-1, res)
+			if !w.Ctl.TxIdle() {
+				// the operation has returned, its transaction is neither committed nor rolled back: it keeps
+				// the write lock, every later writer (client request or maintenance round) fails
+				stuck = true
+				what := fmt.Sprintf("operation %s (answered %s) returned with its transaction left open: every later request that writes and every later maintenance round fails", op.K, res.Resp)
+				for _, p := range []string{"C15", "C16", "C09"} {
+					mon.Findings = append(mon.Findings, Finding{Prop: p, Sig: "tx-left-open", What: what, At: len(h.Ops) - 1})
+				}
+			}
 			if gen != nil {
 				gen.Observe(res, nOfPayload)
 			}
